@@ -6,10 +6,12 @@ import (
 	"go/parser"
 	"go/token"
 	"go/types"
+	"reflect"
 	"regexp/syntax"
 	"strconv"
 	"strings"
 
+	"github.com/quasilyte/gogrep"
 	"golang.org/x/exp/typeparams"
 )
 
@@ -309,6 +311,18 @@ func hasKnownSize(typ types.Type) bool {
 		return false
 	}
 	return true
+}
+
+// isAbsentNode reports whether a captured node stands for "nothing":
+// no node at all, a typed nil (pattern `func $_() $results { $*_ }` binds $results
+// to a nil *ast.FieldList for a function without results), or an empty
+// node slice ($*xs that matched zero nodes). Such a node has no position.
+func isAbsentNode(n ast.Node) bool {
+	if n == nil || gogrep.IsEmptyNodeSlice(n) {
+		return true
+	}
+	v := reflect.ValueOf(n)
+	return v.Kind() == reflect.Ptr && v.IsNil()
 }
 
 func isTypeParam(typ types.Type) bool {
